@@ -162,21 +162,21 @@ theorem parentStatus_nd {inp : RunInput} {evs : List Ev} {n p : Name} {nd : Node
       · simp at a; subst a; exact ⟨hd, hf.i e⟩
     · exact h.ig x hx
 
-theorem absorbDone_status (inp : RunInput) (s : Sys) (isCalc : Bool) : ∀ (ds : List Name) (nd : Node),
+theorem absorbDone_status (inp : RunInput) [NoFailDeliver inp] (s : Sys) (isCalc : Bool) : ∀ (ds : List Name) (nd : Node),
     (absorbDone inp s isCalc ds nd).status = nd.status := by
   intro ds
   induction ds with
   | nil => intro nd; rfl
   | cons a t ih =>
     intro nd
-    simp only [absorbDone]
+    simp only [absorbDone, deliverF_id (inp := inp)]
     split
     · exact ih nd
     · rw [ih]; split
       · rw [deliver_status]; rfl
       · rfl
 
-theorem absorbDone_nd {inp : RunInput} {s : Sys} {evs : List Ev} {n : Name} (isCalc : Bool) (st0 : RS)
+theorem absorbDone_nd {inp : RunInput} [NoFailDeliver inp] {s : Sys} {evs : List Ev} {n : Name} (isCalc : Bool) (st0 : RS)
     (hes : EvSt evs s) :
     ∀ (ds : List Name) (nd : Node), NDp inp evs n nd → nd.status = st0 →
       (∀ d ∈ ds, if isCalc = true then CalcObs inp evs n d else IsDepO inp evs n st0 d) →
@@ -186,7 +186,7 @@ theorem absorbDone_nd {inp : RunInput} {s : Sys} {evs : List Ev} {n : Name} (isC
   | nil => intro nd h _ _; exact h
   | cons a t ih =>
     intro nd h hst hds
-    simp only [absorbDone]
+    simp only [absorbDone, deliverF_id (inp := inp)]
     have ha := hds a (by simp)
     split
     · exact ih nd h hst (fun d hd => hds d (by simp [hd]))
@@ -200,7 +200,7 @@ theorem absorbDone_nd {inp : RunInput} {s : Sys} {evs : List Ev} {n : Name} (isC
         simp only [hc] at ha
         exact ih _ (parentStatus_nd h (hst ▸ ha) (hes a)) hst (fun d hd => hds d (by simp [hd]))
 
-theorem waitNode_nd {inp : RunInput} {s : Sys} {evs : List Ev} {n : Name} {nd : Node} (ds : List Name) (isCalc : Bool)
+theorem waitNode_nd {inp : RunInput} [NoFailDeliver inp] {s : Sys} {evs : List Ev} {n : Name} {nd : Node} (ds : List Name) (isCalc : Bool)
     (pc' : PC) (hes : EvSt evs s) (h : NDp inp evs n nd)
     (hds : ∀ d ∈ ds, if isCalc = true then CalcObs inp evs n d else IsDepO inp evs n nd.status d)
     (hpc : ∀ todo, pc' = .setupIter todo → nd.status ≠ .none) :
@@ -294,7 +294,7 @@ theorem genStep_nd {inp : RunInput} {evs : List Ev} {s : Sys} {n : Name} {nd : N
     · exact h
     · exact nd_setNode h hx
 
-theorem addWaitRun_nd {inp : RunInput} {evs : List Ev} {s : Sys} {n : Name} {nd : Node} (ds : List Name) (c : Bool)
+theorem addWaitRun_nd {inp : RunInput} [NoFailDeliver inp] {evs : List Ev} {s : Sys} {n : Name} {nd : Node} (ds : List Name) (c : Bool)
     (pc' : PC) (hfe : EvSt evs s) (h : AllNDe inp evs s)
     (hn : s.nodes n = some nd) (hds : ∀ d ∈ ds, if c = true then CalcObs inp evs n d else IsDepO inp evs n nd.status d)
     (hpc : ∀ todo, pc' = .setupIter todo → nd.status ≠ .none) :
@@ -302,7 +302,7 @@ theorem addWaitRun_nd {inp : RunInput} {evs : List Ev} {s : Sys} {n : Name} {nd 
   unfold addWaitRun
   exact nd_registerWaiting n _ (nd_setNode h (waitNode_nd ds c pc' hfe (h n nd hn) hds hpc))
 
-theorem nodeStep_nd {inp : RunInput} {evs : List Ev} {s s' : Sys} {n : Name} {nd : Node} {perm : List Name}
+theorem nodeStep_nd {inp : RunInput} [NoFailDeliver inp] {evs : List Ev} {s s' : Sys} {n : Name} {nd : Node} {perm : List Name}
     (hfe : EvSt evs s) (h : AllNDe inp evs s) (hn : s.nodes n = some nd)
     (hs : nodeStep inp s n nd perm = some s') : AllNDe inp evs s' := by
   have hnd := h n nd hn
@@ -372,7 +372,7 @@ theorem nodeStep_nd {inp : RunInput} {evs : List Ev} {s s' : Sys} {n : Name} {nd
   | afterSelf2 => simp only [hpc] at hs; cases hs; exact nd_setNode h (hnd.setPc _ (fun _ e => by cases e))
   | done => simp only [hpc] at hs; cases hs; exact h
 
-theorem dtick_nd {inp : RunInput} {evs : List Ev} {s s' : Sys} {perm : List Name}
+theorem dtick_nd {inp : RunInput} [NoFailDeliver inp] {evs : List Ev} {s s' : Sys} {perm : List Name}
     (hfe : EvSt evs s) (h : AllNDe inp evs s)
     (hs : dtick inp s perm = some s') : AllNDe inp evs s' := by
   unfold dtick at hs
@@ -394,15 +394,15 @@ theorem dtick_nd {inp : RunInput} {evs : List Ev} {s s' : Sys} {perm : List Name
         · split at hs <;> (cases hs; exact h)
         · cases hs; exact h
 
-theorem wakeOne_nd {inp : RunInput} {evs : List Ev} {s : Sys} {pst : RS} {p w : Name} {nd : Node}
+theorem wakeOne_nd {inp : RunInput} [NoFailDeliver inp] {evs : List Ev} {s : Sys} {pst : RS} {p w : Name} {nd : Node}
     (h : AllNDe inp evs s) (hw : s.nodes w = some nd) (hnc : wakeCrash p nd = false)
     (hf : PstOK evs pst p) : AllNDe inp evs (wakeOne inp s pst p w nd) := by
   have := nd_setNode h (wokenNode_nd (inp := inp) (h w nd hw) hnc hf)
-  unfold wakeOne; split
+  rw [wakeOne_eq (inp := inp)]; split
   · intro k y hk; exact this k y hk
   · exact this
 
-theorem updateWaiting_nd {inp : RunInput} {evs : List Ev} {pst : RS} {p : Name}
+theorem updateWaiting_nd {inp : RunInput} [NoFailDeliver inp] {evs : List Ev} {pst : RS} {p : Name}
     (hf : PstOK evs pst p) :
     ∀ (perm : List Name) (s s' : Sys), AllNDe inp evs s → updateWaiting inp pst p s perm = some s' →
       AllNDe inp evs s' := by
@@ -430,7 +430,7 @@ theorem sendHead_nd {inp : RunInput} {evs : List Ev} {s : Sys} {p : Name} {nd : 
       ⟨hnd.dt, hnd.dc, hnd.pt, hnd.pcalc, hnd.st, hnd.sc, hnd.wr, hnd.wc, hnd.bd, hnd.ig, hnd.sp⟩ k y hk
   · exact h
 
-theorem send_nd {inp : RunInput} {evs : List Ev} {s s' : Sys} {processed : Option Name} {perm : List Name}
+theorem send_nd {inp : RunInput} [NoFailDeliver inp] {evs : List Ev} {s s' : Sys} {processed : Option Name} {perm : List Name}
     (hfe : EvSt evs s) (h : AllNDe inp evs s)
     (hs : send inp s processed perm = some s') : AllNDe inp evs s' := by
   unfold send at hs
@@ -565,7 +565,7 @@ theorem invU_result {inp : RunInput} {s s1 s' : Sys} {n : Name} {nd : Node} (h :
     · exact absurd a (resEvents_no_unmet n _ t)
     · exact absurd a (quiet_no_unmet hq t)
 
-theorem serialStep_invU {inp : RunInput} {s s' : Sys} {perm : List Name} (h : InvU inp s) (hes : EvSt s.events s)
+theorem serialStep_invU {inp : RunInput} [NoFailDeliver inp] {s s' : Sys} {perm : List Name} (h : InvU inp s) (hes : EvSt s.events s)
     (hs : serialStep inp s perm = some s') : InvU inp s' := by
   have same : ∀ x : Sys, x.nodes = s.nodes → x.events = s.events → InvU inp x :=
     fun x a b => invU_frame h a [] (by simpa using b) (by simp)
@@ -640,7 +640,7 @@ theorem serialStep_invU {inp : RunInput} {s s' : Sys} {perm : List Name} (h : In
 theorem init_invU (inp : RunInput) : InvU inp (init inp) :=
   ⟨fun k y hk => by simp [init] at hk, fun t ht => by simp [init] at ht⟩
 
-theorem pstep_invU {inp : RunInput} {s s' : Sys} {c : Choice} (h : InvU inp s) (hes : EvSt s.events s)
+theorem pstep_invU {inp : RunInput} [NoFailDeliver inp] {s s' : Sys} {c : Choice} (h : InvU inp s) (hes : EvSt s.events s)
     (hs : pstep inp s c = some s') : InvU inp s' := by
   have same : ∀ x : Sys, x.nodes = s.nodes → x.events = s.events → InvU inp x :=
     fun x a b => invU_frame h a [] (by simpa using b) (by simp)
